@@ -87,6 +87,7 @@ class Proj:
         self.shifts = {}              # name -> hours dict
         self.shift_leaves = {}        # name -> [(startDt, endDt|None)]: leaves declared inside the shift
         self.default_hours = None     # hours dict written in the project header: the default of everybody without hours of their own
+        self.global_rate = None       # 'rate' at global scope: the default of every resource that states none
         self.scenarios = scenarios    # None or nested list [("plan",[("delayed",[])])]
         self.extra = ""              # extra text appended (reports ...)
 
@@ -185,6 +186,8 @@ class Proj:
         if self.scenarios:
             scen(self.scenarios, "  ")
         L.append("}")
+        if self.global_rate is not None:
+            L.append("rate %s" % self.global_rate)
         for a, b in self.vac:
             L.append('vacation "v" %s%s' % (fmt_date(a), " - " + fmt_date(b) if b else ""))
         for a, b in self.gleaves:
@@ -1278,6 +1281,18 @@ import copy as _copy
 
 def clone(p):
     return _copy.deepcopy(p)
+
+
+def effective_rates(p):
+    """full id -> rate of every resource by the reference semantics: own rate, else the nearest enclosing group's, else the global one."""
+    out = {}
+    for r in p.res:
+        x = r
+        while x is not None and x.rate is None:
+            x = x.parent
+        rate = x.rate if x is not None else p.global_rate
+        out[p.full(r)] = float(rate) if rate is not None else 0.0
+    return out
 
 
 def shifted(p, weeks):
